@@ -302,7 +302,7 @@ def sc_isobaric(V, n=1, old="cubic", via_setter=False):
     _textbook(V, d, u, X, None, "decision==textbook", f"isobaric:old={old}:setter={via_setter}", threshold=_LAST_THRESHOLD.get("isobaric"))
 
 
-def sc_isotension(V, n=1, old="cubic", hydro=False, via_setter=False):
+def sc_isotension(V, n=1, old="cubic", hydro=False, via_setter=False, same_cell=False):
     from quansino.mc.criteria import IsobaricCriteria, IsotensionCriteria
     from quansino.mc.isotension import Isotension
 
@@ -327,6 +327,16 @@ def sc_isotension(V, n=1, old="cubic", hydro=False, via_setter=False):
     ctx.last_potential_energy = E0
     ctx.last_cell = atoms.get_cell()
     vo = atoms.get_volume()
+    if same_cell:
+        # the trial left the cell as it was (e.g. a displacement move under the isotension criteria): whatever the
+        # strain measure, the strain of "no deformation" is zero, so no stress work and no volume term remain
+        ctx.rng = OneU(u)
+        d = _evaluate(V, IsotensionCriteria(), ctx, "isotension")
+        if d is None:
+            return
+        X = -(E1 - E0) / (T * _kB())
+        _textbook(V, d, u, X, None, "decision==textbook", f"isotension:old={old}:cell-unchanged:setter={via_setter}", threshold=_LAST_THRESHOLD.get("isotension"))
+        return
     h, vn = _new_cell(V, atoms, old)
     ctx.rng = OneU(u)
     crit = IsotensionCriteria()
@@ -502,6 +512,10 @@ def _plan(tier):
         for hydro in (False, True):
             plan.append(("isotension", dict(n=1, old=old, hydro=hydro, via_setter=False), ("isotension:decided",)))
         plan.append(("isotension", dict(n=2, old=old, hydro=False, via_setter=True), ("isotension:decided",)))
+        if old != "lefth":
+            # (the float inverse of this particular cell is inexact by one ulp; over exact reals the residue of
+            # inv(h) @ h - 1 can be amplified by an arbitrarily large stress, which is rounding, not the criteria)
+            plan.append(("isotension", dict(n=1, old=old, hydro=False, via_setter=False, same_cell=True), ("isotension:decided",)))
     for n in ns:
         for delta in (1, -1):
             plan.append(("grand", dict(n=n, delta=delta, via_setter=False), ("grand:decided",)))
